@@ -8,11 +8,12 @@ pub struct TranscriptRng { x: u8 }
 pub struct TranscriptRngBuilder { x: u8 }
 pub struct NullRng;
 pub uninterp spec fn le64(x: u64) -> Seq<u8>;
+pub uninterp spec fn transcript_init_log(label: Seq<u8>) -> Seq<TEvent>;
 pub uninterp spec fn strobe_prf(log: Seq<TEvent>, label: Seq<u8>, n: nat) -> Seq<u8>;
 impl Transcript {
     pub uninterp spec fn log(&self) -> Seq<TEvent>;
     #[verifier::external_body]
-    pub fn new(label: &'static [u8]) -> (r: Transcript) { unimplemented!() }
+    pub fn new(label: &'static [u8]) -> (r: Transcript) ensures r.log() == transcript_init_log(label@) { unimplemented!() }
     #[verifier::external_body]
     pub fn append_message(&mut self, label: &'static [u8], message: &[u8])
         ensures final(self).log() == old(self).log().push(TEvent::Append(label@, message@))
